@@ -115,6 +115,16 @@ def random_script(rng, n_clients: int, n_rounds: int, malformed: float = 0.03, f
             return s.rd(u, cd.MT_MODULE_READY, G.p_i32(rng.choice([1, 4321, -1])))
         return s.rd(u, rng.choice([cd.MT_CONNECT, cd.MT_CONNECT_V2]), G.p_connect_v2(mod_id=rng.choice(idpool)), src=rng.choice(idpool))
 
+    plain_read = one_read
+
+    def one_read(u: int) -> Dict[str, Any]:      # noqa: F811
+        # control frames too carry destination fields (the manager has no use for them): any value, legal or not
+        rd = plain_read(u)
+        if "dest" not in rd and "nbytes" not in rd and "cut" not in rd and "err" not in rd and rng.random() < 0.2:
+            rd["dest"] = rng.choice([0, 10, 200, 201, -1, 32767, -32768])
+            rd["dest_host"] = rng.choice([0, 0, 5, 6, -1, 32767])
+        return rd
+
     for _ in range(n_rounds):
         acc = s.nconn < n_clients and rng.random() < (0.6 if s.nconn < 2 else 0.25)
         cands = [u for u in range(1, s.nconn + 1) if u not in gone or rng.random() < 0.1]
@@ -207,6 +217,22 @@ def directed() -> Iterator[Tuple[str, G.Script]]:
                 s.round([s.rd(4, cd.MT_SUBSCRIBE, G.p_i32(5000))], fail={d: fm for d in dead})
                 s.round([s.rd(5, cd.MT_SUBSCRIBE, G.p_i32(5001))])
                 yield f"loggers_{dead[0]}{dead[1]}_of_three_fail_{fm}_{watch}", probe(s)
+    # control frames whose header carries destination fields outside the legal ranges: the manager has no use for these
+    # fields in a control frame; every one of them is acknowledged and applied like any other (C19)
+    for dest, host in ((201, 0), (-1, 0), (0, 6), (0, -1), (32767, 32767), (10, 1)):
+        s = G.Script(); s.accept(3)
+        s.round([s.rd(1, cd.MT_CONNECT, G.p_connect(logger=1), src=10, dest=dest, dest_host=host)])
+        s.round([s.rd(2, cd.MT_CONNECT_V2, G.p_connect_v2(mod_id=11, name=b"two"), dest=dest, dest_host=host)])
+        s.round([s.rd(2, cd.MT_CONNECT, G.p_connect(), src=11, dest=dest, dest_host=host)])
+        s.round([s.rd(3, cd.MT_CONNECT, G.p_connect(), src=12)])
+        for op, arg in ((cd.MT_SUBSCRIBE, 5000), (cd.MT_PAUSE_SUBSCRIPTION, 5000), (cd.MT_RESUME_SUBSCRIPTION, 5000),
+                        (cd.MT_SUBSCRIBE, 5001), (cd.MT_UNSUBSCRIBE, 5001)):
+            s.round([s.rd(2, op, G.p_i32(arg), dest=dest, dest_host=host)])
+        s.round([s.rd(2, cd.MT_CLIENT_SET_NAME, G.p_name(b"renamed"), dest=dest, dest_host=host)])
+        s.round([s.rd(2, cd.MT_MODULE_READY, G.p_i32(77), dest=dest, dest_host=host)])
+        s.round([s.rd(3, 5000, b"data")]); s.round([s.rd(3, 5001, b"none")])
+        s.round([s.rd(2, cd.MT_DISCONNECT, dest=dest, dest_host=host)])
+        yield f"control_with_dest_{dest}_{host}", probe(s)
     # sender of a control frame can not take its ACK
     s = G.Script(); connect_n(s, 3, loggers=[3])
     s.round([s.rd(2, cd.MT_SUBSCRIBE, G.p_i32(cd.MT_FAILED_MESSAGE))])
@@ -315,6 +341,25 @@ def directed() -> Iterator[Tuple[str, G.Script]]:
                     s.round([fr[op]()], **kw)
                 s.round([s.rd(2, 5000, b"after", src=11)])
                 yield f"debug_{op}_{who}_{how}", probe(s)
+
+    # --- the accept branch of run() (its INFO log line and whatever that delivery triggers) runs BEFORE the round's poll for
+    # writable sockets: it is routed by the writable set the previous poll left.  Connection 1 hears INFO log lines and its
+    # socket is broken when the line of `accept` is written; connection 2 (CLIENT_CLOSED) was not writable at the previous
+    # poll and is writable now: it is not handed the notice.  (Observed behaviour; the Spec judges that stretch by the
+    # previous poll.  Seen at log level INFO and below.)
+    s = G.Script(); s.accept(3)
+    s.round([s.rd(1, cd.MT_SUBSCRIBE, G.p_i32(cd.MT_RTMA_LOG_INFO))], writable=[1, 2, 3])
+    s.round([s.rd(2, cd.MT_SUBSCRIBE, G.p_i32(cd.MT_CLIENT_CLOSED))], writable=[1, 2, 3])
+    s.round([s.rd(3, 5000, b"")], writable=[1, 3])
+    s.round([s.rd(3, 5000, b"")], writable=[1, 2, 3, 4], fail={1: "hdr"}, accept=True)
+    yield "stale_wlist_at_accept", probe(s)
+    # ... and the periodic section AFTER it: a round that accepts and reads nothing does not poll at all (nobody is writable);
+    # the TIMING report kills a logger, only loggers can be handed the notice although connection 2 was writable before
+    s = G.Script(); connect_n(s, 3, loggers=[1])
+    s.round([s.rd(1, cd.MT_SUBSCRIBE, G.p_i32(cd.MT_TIMING_MESSAGE))])
+    s.round([s.rd(2, cd.MT_SUBSCRIBE, G.p_i32(cd.MT_CLIENT_CLOSED))])
+    s.round([], dt=2000, fail={1: "hdr"}, accept=True)
+    yield "stale_wlist_tick_after_accept", probe(s)
 
     # --- re-entrancy: while a manager-originated message is being delivered, the failure handling publishes further
     # manager messages which are themselves undeliverable somewhere
